@@ -72,7 +72,9 @@ def main():
     # order: expensive first so the shards balance
     sel.sort(key=lambda c: (c[2] not in EXPENSIVE,))
     for (name, level, mode, e1, e2, w, nme) in sel:
-        spec.write("%s %d %d %.17g %.17g %d %s\n" % (name, level, mode, e1, e2, w, " ".join("%.17g" % v for v in (nme or []))))
+        thr = genmon.daughter_thresholds(name) if (level > 0 or name in schemes.EXTRA_PARTS) else []
+        spec.write("%s %d %d %.17g %.17g %d %s%s\n" % (name, level, mode, e1, e2, w, " ".join("%.17g" % v for v in (nme or [])),
+                                                      (" T " + " ".join("%.17g" % t for t in thr)) if thr else ""))
     spec.close()
     n_iid = 300 if quick else 5000
     n_grid = 6 if quick else 60
@@ -80,7 +82,7 @@ def main():
 
     def one(shard):
         cmd = [exe, spec.name, str(chk.seed), str(n_iid), str(n_grid), "1" if port_fermi else "0", str(shard), str(nshards)]
-        return (shard,) + run(cmd, timeout=7200, env=build.lib_env("plain"))
+        return (shard,) + run(cmd, timeout=7200 if quick else 12 * 3600, env=build.lib_env("plain", {"VERIF_DEEP_EVENTS": "10000" if quick else "1500000"}))
 
     results = pmap(one, list(range(nshards)), jobs=NCPU)
     os.unlink(spec.name)
@@ -126,7 +128,8 @@ def main():
         "rule": "configurations = all 51 isotopes x levels 0..16 x modes 1..20 (+ seeded energy windows on window-capable modes, "
                 "+ seeded NMEs for mode 18); for every configuration ier of both sides is compared; for accepted ones "
                 "toallevents/clamped range/levelE/init draws, then events on i.i.d. tapes and with each of the first 12 cells pinned "
-                "over a log-tail+quantile grid; distinct = distinct reference event signatures summed over configurations",
+                "over a log-tail+quantile grid, and (levels with a de-excitation cascade) a frontier search over pinned cells guided by new "
+                "reference-event signatures (harness/steer.h); distinct = distinct reference event signatures summed over configurations",
         "samples": samples or [{"note": "no sample captured"}],
         "configurations_accepted_and_compared": accepted,
         "configurations_rejected_by_both": rejected,
